@@ -354,6 +354,69 @@ def d5_idl_normalisation(ctx, obs):
     ctx.check(rule, 'obs.py:Obs.mc_names', ok, 'Monte Carlo ensembles exclude covariance names', 'mc_names differs')
 
 
+def _always_exits(stmts):
+    if not stmts:
+        return False
+    last = stmts[-1]
+    if isinstance(last, (ast.Raise, ast.Return, ast.Continue, ast.Break)):
+        return True
+    if isinstance(last, ast.If):
+        return _always_exits(last.body) and _always_exits(last.orelse)
+    return False
+
+
+def established_false(mod, func, node):
+    """tests known to be false when `node` executes: enclosing if/elif tests with negative polarity and the tests of preceding
+    sibling if/elif chains (in any enclosing block of the function) whose branch leaves the block (raise/return/continue/break)"""
+    out = [t for t, pol in guards_of(mod, node, stop=func) if not pol]
+    cur = node
+    while cur is not func and cur is not None:
+        par = mod.parents.get(cur)
+        if par is None:
+            break
+        for field in ('body', 'orelse', 'finalbody'):
+            blk = getattr(par, field, None)
+            if isinstance(blk, list) and cur in blk:
+                for prev in blk[:blk.index(cur)]:
+                    x = prev
+                    while isinstance(x, ast.If):
+                        if _always_exits(x.body):
+                            out.append(x.test)
+                        else:
+                            break
+                        x = x.orelse[0] if len(x.orelse) == 1 and isinstance(x.orelse[0], ast.If) else None
+        cur = par
+    return out
+
+
+def d6_idl_stores(ctx, obs):
+    """path rule: a configuration list supplied by the caller reaches self.idl only on paths on which 'decreasing' and
+    'repeated' have been excluded (for a range: a negative step)"""
+    rule = 'C04-D3'
+    f = obs.func('Obs.__init__')
+    idl = [a.arg for a in f.args.args][3]
+    n = 0
+    for s_ in statements(f):
+        if not (isinstance(s_, ast.Assign) and unparse(s_.targets[0]).startswith('self.idl[')):
+            continue
+        gs = guards_of(obs, s_, stop=f)
+        if not any(pol and unparse(t) == '%s is not None' % idl for t, pol in gs):
+            continue    # default range(1, len + 1)
+        n += 1
+        as_range = any(pol and isinstance(t, ast.Call) and call_name(t) == 'isinstance' and unparse(t.args[1]) == 'range' for t, pol in gs)
+        false_tests = [unparse(t) for t in established_false(obs, f, s_)]
+        key = 'obs.py:Obs.__init__#idl-store[%s]' % unparse(s_.value)[:40]
+        if as_range:
+            ok = any('.step' in t and ('< 0' in t or '<= 0' in t or '< 1' in t) for t in false_tests)
+            ctx.check(rule, key, ok, 'a range is stored only after a negative step has been excluded', 'a range given by the caller is stored without any test of its direction: a descending range is accepted as configuration list (tests excluded on this path: %s)' % false_tests, obs.loc(s_))
+        else:
+            dec = any('diff(' in t and ('< 0' in t or '<= 0' in t) or ('dc' in t and ('< 0' in t or '<= 0' in t)) for t in false_tests)
+            dup = any('diff(' in t and ('== 0' in t or '<= 0' in t) or ('dc' in t and ('== 0' in t or '<= 0' in t)) for t in false_tests)
+            ctx.check(rule, key, dec and dup, 'the list is stored only after decreasing and repeated configuration numbers have been excluded',
+                      'this store is reachable without the %s test having been passed (tests excluded on this path: %s)' % (' and '.join(x for x, b in (('unsorted', dec), ('duplicate', dup)) if not b), false_tests), obs.loc(s_))
+    ctx.floor('stores of caller-supplied configuration lists', n, 3)
+
+
 def d4_trusted_path(ctx):
     rule = 'C04-D4'
     n = 0
@@ -380,12 +443,15 @@ def run(ctx):
     ctx.guarded('C04-D1', 'obs.py:Obs@closure', d1_closure, ctx, obs)
     ctx.guarded('C04-D2', 'package@reweighted', d2_slot_types, ctx)
     ctx.guarded('C04-D3', 'obs.py@validation', d3_validation, ctx)
+    ctx.guarded('C04-D3', 'obs.py@idl-stores', d6_idl_stores, ctx, ctx.repo.mod('obs'))
     ctx.guarded('C04-D4', 'package@means', d4_trusted_path, ctx)
     ctx.rule('C04-D5', 'configuration lists normalised to ranges; chain bookkeeping (shape, N, ensembles)')
     ctx.guarded('C04-D5', 'obs.py@idl', d5_idl_normalisation, ctx, obs)
 
 
 SELFTEST = [
+    ('fix-reverted-descending-range', 'pyerrors/obs.py', "                    if idx.step < 0:\n                        raise ValueError(\"Unsorted idx for idl[%s]\" % (name))\n", "", 'C04-D3'),
+    ('range-shortcut-before-order-tests', 'pyerrors/obs.py', "                    if np.any(dc < 0):", "                    if len(dc) == 1:\n                        self.idl[name] = range(idx[0], idx[-1] + dc[0], dc[0])\n                        continue\n                    if np.any(dc < 0):", 'C04-D3'),
     ('fix-reverted-sub', 'pyerrors/obs.py', "            elif isinstance(y, complex):\n                return CObs(self, 0) - y\n", "", 'C04-D1'),
     ('fix-reverted-merge', 'pyerrors/obs.py', "o.reweighted = any(oi.reweighted for oi in list_of_obs)", "o.reweighted = np.max([oi.reweighted for oi in list_of_obs])", 'C04-D2'),
     ('add-complex-branch-removed', 'pyerrors/obs.py', "            elif isinstance(y, complex):\n                return CObs(self, 0) + y\n", "", 'C04-D1'),
